@@ -326,7 +326,9 @@ func (x *Exec) stmt(fr *Frame, s ast.Stmt, st *State) []*State {
 		} else {
 			r = Sub(cur.S, IntLit(1))
 		}
-		c.oblige("overflow", exprText(s.X)+s.Tok.String(), inRange(r, T), s.Pos())
+		if !c.wrapsText(exprText(s.X) + s.Tok.String()) {
+			c.oblige("overflow", exprText(s.X)+s.Tok.String(), inRange(r, T), s.Pos())
+		}
 		if _, _, ok := intRange(T); ok {
 			r = Ite(inRange(r, T), r, wrapTo(r, T))
 		}
